@@ -151,7 +151,7 @@ Section Entries.
     unfold tofile. destruct (negb (t_valid t)); [intros H; inversion H; subst; repeat split; constructor|].
     chk t.
     - destruct (kopen kf fs cwd (t_base t) (t_loc t)) as [[[rp ino] data]|e] eqn:Eo.
-      + destruct (N.of_nat (length data) <? or0 (t_off t) + or_default (t_len t) (t_n t))%N;
+      + destruct ((0 <? or_default (t_len t) (t_n t))%N && (N.of_nat (length data) <? or0 (t_off t) + or_default (t_len t) (t_n t))%N);
           intros H; inversion H; subst; repeat split; econstructor; eassumption.
       + intros H; inversion H; subst; repeat split; econstructor; eassumption.
     - intros H; inversion H; subst; repeat split; constructor; assumption.
@@ -253,25 +253,19 @@ Proof.
   apply render_nonempty; [exact E|]. apply py_split_head_nonempty.
 Qed.
 
-Theorem load_sets_graph_base p m t :
-  In t (m_graph (load_model p m)) -> t_base t = load_base p /\ t_base t <> [].
+Theorem load_sets_all_base p m t :
+  In t (m_graph (load_model p m) ++ m_funcs (load_model p m)) -> t_base t = load_base p /\ t_base t <> [].
 Proof.
-  unfold load_model. simpl. intros H. apply in_map_iff in H. destruct H as [t0 [<- _]].
-  simpl. split; [reflexivity|apply load_base_nonempty].
+  unfold load_model. simpl. intros H. apply in_app_or in H.
+  destruct H as [H|H]; apply in_map_iff in H; destruct H as [t0 [<- _]];
+    (simpl; split; [reflexivity|apply load_base_nonempty]).
 Qed.
 
 (* the fixed defect: a bare file name *)
 Example load_base_bare : load_base [109; 46; 111; 110; 110; 120]%N = s_dot.
 Proof. reflexivity. Qed.
 
-(* load() does not visit tensors inside model.functions: they keep the empty base_dir, and an empty
-   base_dir disables the check for EVERY location *)
-Theorem load_function_tensors_refuted :
-  exists p m t, In t (m_funcs (load_model p m)) /\ t_base t = [].
-Proof.
-  exists [109%N], (mkM [] [fresh [] [120%N] 1 None None]), (fresh [] [120%N] 1 None None).
-  split; [left; reflexivity|reflexivity].
-Qed.
-
+(* an empty base_dir (programmatic construction only, never after load) disables the check for EVERY
+   location: this is why load() must never leave it empty *)
 Theorem empty_base_unchecked kf fs cwd pf loc : check kf fs cwd pf [] loc = Some (Ok tt).
 Proof. reflexivity. Qed.
